@@ -269,3 +269,11 @@ package table
 //@   ensures[lock] t.#lock_mu == 0 && t2.#lock_mu == 0
 //@   ensures[no-error] result == nil
 //@   ensures[left-rows-kept@C10] leftRowsKept(t.Data, old(t.Data))
+
+// ---- Printing a cell (C13, C12) -------------------------------------------------------------
+//@ props C13 C08
+//@ spec macro cellText(c *Cell) String = ite(c.S != nil, deref(c.S), ite(c.N != nil, nodeText(deref(c.N.t), deref(c.N.id)), ite(c.P != nil, predText(c.P.id, c.P.anchor != nil, deref(c.P.anchor)), ite(c.L != nil, litText(c.L.t, c.L.v), ite(c.T != nil, timefmt(deref(c.T), RFC3339Nano()), "<NULL>")))))
+//@ func (c *Cell) String
+//@   heapfun
+//@   requires wfCell(c)
+//@   ensures[text] result == cellText(c)
